@@ -83,7 +83,11 @@ func init() {
 			"a member in neither table is listed as unclassified information (it may be a cache) and does not fail the check.",
 		NotCovered: "that a member that is read is also printed correctly, that the printed text parses back to an identical object, table options beyond what the root function prints, " +
 			"SHOW CREATE VIEW/TRIGGER/PROCEDURE/EVENT (stored and returned as text)",
-		Run: func(c *Ctx) { runC22(c, real, 29) },
+		Run: func(c *Ctx) {
+			runC22(c, real, 29)
+			runC22Lost(c, c22RealLostNames(c))
+			dumpObsIfAsked(c)
+		},
 		Fixture: func(c *Ctx, fx2 *Prog) {
 			expectFixture(c, fx2, "c22: a definitional field and a definitional index method that the path never reads must be reported",
 				[]string{"C22-F1:Column.Invisible", "C22-F1:Index.Comment"},
